@@ -1,14 +1,21 @@
 //! C12 — UAS INVITE: one final response under any CANCEL/BYE/accept race; 2xx until ACK
 //!
 //! World (`run`, also driven by two sub-checks of C08): one INVITE handed to Dialog::new_server + Acceptor, a scripted
-//! application (180 / reliable 183 / reliable 183 abandoned after N ms / accept / reject / drop, in order) and a
-//! scripted peer (CANCEL, BYE, PRACK, ACK, copy of the INVITE, re-INVITE at absolute instants). Dimensions of the
+//! application (180 / reliable 183 / reliable 180 / reliable 183 abandoned after N ms / accept / reject / drop, in
+//! order; after an accept it drives the session: BYE -> 200, re-INVITE -> 488) and a scripted peer (CANCEL, BYE,
+//! PRACK for the first or for the n-th reliable provisional seen on the wire, ACK of the 2xx, ACK of the non-2xx
+//! final response, copy of the INVITE, re-INVITE at absolute instants). Dimensions of the
 //! world besides the two scripts: transport reliability, source port of later messages, how long the application
 //! leaves the session undriven, a send latency (every `Transport::send` stays pending N ms after its bytes went
 //! out, so the receive path runs while a responding call is suspended), and a send-fault plan (the k-th send call
 //! is refused with an io::Error; the refused bytes are kept so that the oracle knows whose answer it was).
-//! Oracle: the wire log grouped by (branch, CSeq method), the results of the acceptor calls, virtual timestamps.
-//! Not asserted: when a reliable provisional is given up; which of 200/481 an unmatched CANCEL gets; anything
+//! Oracle: the wire log grouped by (branch, CSeq method), the results of the acceptor calls, virtual timestamps, and
+//! what the application sees of the session after an accept ("a CANCEL that no longer matches a pending INVITE
+//! changes nothing": the session does not end before the peer's BYE, the first BYE reaches the application and
+//! gets its 200). Several reliable provisionals of one INVITE are told apart by their RSeq value on the wire; each
+//! one's call may complete only with a PRACK whose RAck names it, and is retransmitted until then.
+//! Not asserted: when a reliable provisional is given up; what a PRACK gets whose response nobody waits for any
+//! more (given up / abandoned); which of 200/481 an unmatched CANCEL gets; anything
 //! about a request whose own final response the transport refused (it counts as answered with the refused code);
 //! exact instants under send latency (copy k may leave up to (k+1)*latency after its nominal instant, never
 //! before; nothing may leave after the ACK / PRACK).
@@ -47,6 +54,8 @@ pub enum AppOp {
     Drop,
     /// reliable 183 whose future the application abandons (drops) after this many ms without a PRACK
     Rel183Abandon(u64),
+    /// reliable 180 (a further reliable provisional response of the same INVITE, with its own RSeq)
+    Rel180,
 }
 
 #[derive(Serialize, Deserialize, Clone, Copy, Debug, Hash, PartialEq, Eq)]
@@ -63,6 +72,13 @@ pub enum NetOp {
     Ack { cseq_ok: bool },
     /// re-INVITE inside the dialog (next CSeq); the application answers it 488 when it gets to it
     ReInvite,
+    /// ACK for the non-2xx final response of the INVITE as RFC 3261 17.1.1.3 builds it: the INVITE's top Via
+    /// (branch), Request-URI, From, Call-ID and CSeq number, the To of the response (skipped while no such final
+    /// response is on the wire)
+    AckFinal,
+    /// PRACK whose RAck names the `nth` (0-based, in order of first appearance on the wire) reliable provisional
+    /// response of this INVITE (skipped while the peer has not seen that response)
+    PrackOf { nth: u8 },
 }
 
 #[derive(Serialize, Deserialize, Clone, Debug, Hash, Default)]
@@ -94,6 +110,11 @@ pub struct Case {
     /// reaches the wire for such a call
     #[serde(default)]
     pub fail_sends: Vec<u8>,
+    /// the INVITE and the peer's in-dialog requests (BYE, PRACK, re-INVITE, ACK of the 2xx) carry this many (0..2)
+    /// further Via values below the top one (they came through proxies); CANCEL and the ACK of a non-2xx are
+    /// hop-by-hop and carry one Via
+    #[serde(default)]
+    pub via_hops: u8,
 }
 
 // ---------------------------------------------------------------------------------------------
@@ -211,17 +232,30 @@ pub struct Observed {
     pub seen: Vec<Seen>,
     pub session_events: Vec<(u64, String)>,
     pub rseq: Option<u32>,
+    /// RSeq values of the reliable provisional responses in order of first appearance on the wire
+    pub rseqs: Vec<u32>,
+    /// network events that were not generated (an ACK / PRACK for a response the peer had not seen), by index
+    pub skipped_net: Vec<usize>,
     pub cancellables_end: usize,
     pub dialogs_end: usize,
     /// messages the transport refused (send-fault plan), in call order
     pub refused: Vec<(Sent, Option<WireMsg>)>,
 }
 
-fn invite_bytes() -> Vec<u8> {
+/// Via list of a request with top branch `branch` that came through `hops` proxies
+fn via_list(branch: &str, hops: u8) -> Vec<String> {
+    let mut v = vec![format!("SIP/2.0/UDP 192.0.2.9:5060;branch={branch}")];
+    for h in 0..hops.min(2) {
+        v.push(format!("SIP/2.0/UDP 198.51.100.{}:5062;branch={branch}hop{h}", 7 + h));
+    }
+    v
+}
+
+fn invite_bytes(hops: u8) -> Vec<u8> {
     request_text(
         "INVITE",
         "sip:uas@10.0.0.1",
-        &[format!("SIP/2.0/UDP 192.0.2.9:5060;branch={BRANCH}")],
+        &via_list(BRANCH, hops),
         "<sip:peer@192.0.2.9>;tag=peertag",
         "<sip:uas@10.0.0.1>",
         "c12-call",
@@ -232,11 +266,11 @@ fn invite_bytes() -> Vec<u8> {
     )
 }
 
-fn in_dialog(method: &str, branch: &str, cseq: u32, local_tag: &str, extra: &[String]) -> Vec<u8> {
+fn in_dialog(hops: u8, method: &str, branch: &str, cseq: u32, local_tag: &str, extra: &[String]) -> Vec<u8> {
     request_text(
         method,
         "sip:uas@10.0.0.1",
-        &[format!("SIP/2.0/UDP 192.0.2.9:5060;branch={branch}")],
+        &via_list(branch, hops),
         "<sip:peer@192.0.2.9>;tag=peertag",
         &format!("<sip:uas@10.0.0.1>;tag={local_tag}"),
         "c12-call",
@@ -282,13 +316,13 @@ pub fn run(case: &Case, horizon: u64) -> Observed {
         let endpoint = b.build();
         let peer: SocketAddr = "192.0.2.9:5060".parse().unwrap();
         let later_source: SocketAddr = if case.alt_source { "192.0.2.9:5099".parse().unwrap() } else { peer };
-        let inv = invite_bytes();
+        let inv = invite_bytes(case.via_hops);
         inject(&endpoint, &tp, peer, &inv);
         settle().await;
         let app_results: Arc<Mutex<Vec<AppResult>>> = Default::default();
         let session_events: Arc<Mutex<Vec<(u64, String)>>> = Default::default();
         let Ok((acceptor, local_tag)) = rx.try_recv() else {
-            return Observed { wire: log.parsed(), app: vec![], seen: rec.snapshot(), session_events: vec![], rseq: None, cancellables_end: 0, dialogs_end: 0, refused: refused_of() };
+            return Observed { wire: log.parsed(), app: vec![], seen: rec.snapshot(), session_events: vec![], rseq: None, rseqs: vec![], skipped_net: vec![], cancellables_end: 0, dialogs_end: 0, refused: refused_of() };
         };
 
         // application task: ops in order
@@ -319,7 +353,7 @@ pub fn run(case: &Case, horizon: u64) -> Observed {
                                 Err(e) => classify_err(&e.to_string()),
                             },
                         },
-                        AppOp::Rel183 => match acc.create_response(Code::from(183), None).await {
+                        AppOp::Rel183 | AppOp::Rel180 => match acc.create_response(Code::from(if op == AppOp::Rel180 { 180 } else { 183 }), None).await {
                             Err(e) => classify_err(&e.to_string()),
                             Ok(r) => match acc.respond_provisional_reliable(r).await {
                                 Ok(_prack) => "ok".into(),
@@ -404,6 +438,23 @@ pub fn run(case: &Case, horizon: u64) -> Observed {
         }
 
         let mut rseq: Option<u32> = None;
+        let mut skipped_net: Vec<usize> = vec![];
+        // RSeq values of the reliable provisional responses the peer has seen so far, in order of first appearance
+        let rseqs_of = |log: &WireLog| -> Vec<u32> {
+            let mut out: Vec<u32> = vec![];
+            for (_, m) in log.parsed() {
+                if let Some(m) = m {
+                    if matches!(m.status(), Some(101..=199)) {
+                        if let Some(r) = m.header("rseq").and_then(|v| v.trim().parse().ok()) {
+                            if !out.contains(&r) {
+                                out.push(r);
+                            }
+                        }
+                    }
+                }
+            }
+            out
+        };
         let mut n = 0;
         let mut next_cseq = INVITE_CSEQ; // the peer numbers its in-dialog requests consecutively
         for (t, op) in case.net.iter() {
@@ -438,16 +489,17 @@ pub fn run(case: &Case, horizon: u64) -> Observed {
                 ),
                 NetOp::Bye => {
                     next_cseq += 1;
-                    in_dialog("BYE", &format!("z9hG4bKc12bye{n}"), next_cseq, &local_tag, &[format!("X-Seq: n{n}")])
+                    in_dialog(case.via_hops, "BYE", &format!("z9hG4bKc12bye{n}"), next_cseq, &local_tag, &[format!("X-Seq: n{n}")])
                 }
                 NetOp::ReInvite => {
                     next_cseq += 1;
-                    in_dialog("INVITE", &format!("z9hG4bKc12reinv{n}"), next_cseq, &local_tag, &[format!("X-Seq: n{n}"), "Contact: <sip:peer@192.0.2.9>".into()])
+                    in_dialog(case.via_hops, "INVITE", &format!("z9hG4bKc12reinv{n}"), next_cseq, &local_tag, &[format!("X-Seq: n{n}"), "Contact: <sip:peer@192.0.2.9>".into()])
                 }
                 NetOp::Prack { rack_ok, cseq_ok } => {
                     let r = rseq.unwrap_or(1);
                     next_cseq += 1;
                     in_dialog(
+                        case.via_hops,
                         "PRACK",
                         &format!("z9hG4bKc12prack{n}"),
                         next_cseq,
@@ -459,12 +511,45 @@ pub fn run(case: &Case, horizon: u64) -> Observed {
                     )
                 }
                 NetOp::Ack { cseq_ok } => in_dialog(
+                    case.via_hops,
                     "ACK",
                     &format!("z9hG4bKc12ack{n}"),
                     if *cseq_ok { INVITE_CSEQ } else { INVITE_CSEQ - 1 },
                     &local_tag,
                     &[format!("X-Seq: n{n}")],
                 ),
+                NetOp::AckFinal => {
+                    let to = log
+                        .parsed()
+                        .into_iter()
+                        .filter_map(|(_, m)| m)
+                        .find(|m| !m.is_request() && m.status().unwrap_or(0) >= 300 && m.via_branch().as_deref() == Some(BRANCH) && m.cseq().map_or(false, |c| c.1 == "INVITE"))
+                        .and_then(|m| m.header("to").map(str::to_string));
+                    let Some(to) = to else {
+                        skipped_net.push(n - 1);
+                        continue;
+                    };
+                    request_text(
+                        "ACK",
+                        "sip:uas@10.0.0.1",
+                        &[format!("SIP/2.0/UDP 192.0.2.9:5060;branch={BRANCH}")],
+                        "<sip:peer@192.0.2.9>;tag=peertag",
+                        &to,
+                        "c12-call",
+                        INVITE_CSEQ,
+                        "ACK",
+                        &[format!("X-Seq: n{n}")],
+                        b"",
+                    )
+                }
+                NetOp::PrackOf { nth } => {
+                    let Some(r) = rseqs_of(&log).get(*nth as usize).copied() else {
+                        skipped_net.push(n - 1);
+                        continue;
+                    };
+                    next_cseq += 1;
+                    in_dialog(case.via_hops, "PRACK", &format!("z9hG4bKc12prack{n}"), next_cseq, &local_tag, &[format!("RAck: {r} {INVITE_CSEQ} INVITE"), format!("X-Seq: n{n}")])
+                }
             };
             inject(&endpoint, &tp, later_source, &bytes);
             settle().await;
@@ -477,6 +562,8 @@ pub fn run(case: &Case, horizon: u64) -> Observed {
             seen: rec.snapshot(),
             session_events: session_events.lock().clone(),
             rseq,
+            rseqs: rseqs_of(&log),
+            skipped_net,
             cancellables_end: endpoint[il].verif_counts(),
             dialogs_end: endpoint[dl].verif_counts().0,
             refused: refused_of(),
@@ -1008,7 +1095,7 @@ pub fn race_strategy() -> BoxedStrategy<Case> {
                     _ => true,
                 });
             }
-            Case { app, net, net_first, rng, reliable, alt_source, session_busy_ms: 0, send_delay_ms, fail_sends: fault.into_iter().collect() }
+            Case { app, net, net_first, rng, reliable, alt_source, session_busy_ms: 0, send_delay_ms, fail_sends: fault.into_iter().collect(), via_hops: 0 }
         })
         .boxed()
 }
@@ -1041,6 +1128,252 @@ pub fn fault_cases(tier: Tier) -> Vec<Case> {
         }
     }
     out
+}
+
+/// An accepted INVITE (optionally after a 180) whose 2xx is ACKed after 1 / 250 / 700 ms, disturbed by CANCELs that
+/// can no longer cancel anything (between the 2xx and its ACK: same instant as the accept in both orders, 1 ms, 100 ms
+/// and one retransmission interval later; matching, with another branch / CSeq, twice, together with a copy of the
+/// INVITE; after the ACK), and then USED: the peer sends a re-INVITE and / or its BYE soon after or after 64*T1.
+/// Judged by `check_race` (the late CANCEL gets 200 / 481 and changes nothing: one 2xx, the session lives until the
+/// BYE, the BYE reaches the application and gets its 200).
+pub fn established_cases(tier: Tier) -> Vec<Case> {
+    let cancel = NetOp::Cancel { branch_ok: true, cseq_ok: true };
+    let mut out = vec![];
+    let mut k = 0u8;
+    for accept_at in [0u64, 30] {
+        for ack in [1u64, 250, 700] {
+            // disturbances as (offset from the accept, op); offsets >= ack lie behind the ACK
+            let mut dist: Vec<Vec<(u64, NetOp)>> = vec![
+                vec![],
+                vec![(0, cancel)],
+                vec![(ack + 1, cancel)],
+                vec![(ack + 600, cancel)],
+            ];
+            if ack > 1 {
+                dist.push(vec![(1, cancel)]);
+                dist.push(vec![(100, cancel)]);
+                dist.push(vec![(1, NetOp::Cancel { branch_ok: true, cseq_ok: false })]);
+                dist.push(vec![(1, NetOp::Cancel { branch_ok: false, cseq_ok: true })]);
+                dist.push(vec![(1, cancel), (2, cancel)]);
+                dist.push(vec![(1, NetOp::DupInvite), (2, cancel)]);
+                dist.push(vec![(100, cancel), (ack + 1, cancel)]);
+            }
+            if ack > 501 {
+                dist.push(vec![(501, cancel)]);
+                dist.push(vec![(499, cancel), (502, NetOp::DupInvite)]);
+            }
+            for d in dist {
+                let follow: Vec<Vec<(u64, NetOp)>> = vec![
+                    vec![(ack + 1000, NetOp::Bye)],
+                    vec![(ack + 900, NetOp::ReInvite), (ack + 1000, NetOp::Bye)],
+                    vec![(TIMEOUT + 5000, NetOp::Bye)],
+                ];
+                for (fi, f) in follow.into_iter().enumerate() {
+                    for (reliable, alt_source, net_first) in [(false, false, false), (false, false, true), (true, false, false), (false, true, false)] {
+                        if tier == Tier::Quick && (reliable || alt_source || net_first) && fi != 0 {
+                            continue;
+                        }
+                        if reliable && d.iter().any(|(_, o)| *o == NetOp::DupInvite || d.iter().filter(|(_, x)| x == o).count() > 1) {
+                            // (over a reliable transport nothing is sent twice)
+                            continue;
+                        }
+                        k = k.wrapping_add(37);
+                        let mut net: Vec<(u64, NetOp)> = d.iter().map(|(t, o)| (accept_at + t, *o)).collect();
+                        net.push((accept_at + ack, NetOp::Ack { cseq_ok: true }));
+                        net.extend(f.iter().map(|(t, o)| (accept_at + t, *o)));
+                        net.sort_by_key(|n| n.0);
+                        let mut app = vec![];
+                        if accept_at > 0 {
+                            app.push((1, AppOp::Prov180));
+                        }
+                        app.push((accept_at, AppOp::Accept));
+                        out.push(Case { app, net, net_first, rng: k, reliable, alt_source, ..Default::default() });
+                    }
+                }
+            }
+        }
+    }
+    out
+}
+
+// ---------------------------------------------------------------------------------------------
+// (d) several reliable provisional responses of one INVITE, one after the other
+
+/// Histories of two / three reliable provisional responses (183, 180) on one INVITE: the first one given up by
+/// the stack (no PRACK for 31*T1) or abandoned by the application (its future dropped after 700 / 3000 ms) or
+/// acknowledged in time; its PRACK arriving in time, late (before or while the next one waits), twice or never;
+/// the next one acknowledged after 250 / 1400 ms or never.
+pub fn relseq_cases(_tier: Tier) -> Vec<Case> {
+    let p = |nth: u8| NetOp::PrackOf { nth };
+    let mut shapes: Vec<(Vec<(u64, AppOp)>, Vec<(u64, NetOp)>)> = vec![];
+    for second in [AppOp::Rel180, AppOp::Rel183] {
+        // the first one times out (sent at 0, given up 31*T1 later)
+        let app = vec![(0, AppOp::Rel183), (17_000, second)];
+        for net in [
+            vec![],
+            vec![(16_000, p(0))],
+            vec![(16_000, p(0)), (17_250, p(1))],
+            vec![(16_000, p(0)), (18_400, p(1))],
+            vec![(17_100, p(0)), (17_250, p(1))],
+            vec![(17_250, p(1))],
+            vec![(16_000, p(0)), (16_010, p(0)), (17_250, p(1))],
+            vec![(16_990, p(0)), (19_000, p(0))],
+        ] {
+            shapes.push((app.clone(), net));
+        }
+        // the application abandons the first one
+        for (ms, next_at) in [(700u64, 2000u64), (3000, 4000)] {
+            let app = vec![(0, AppOp::Rel183Abandon(ms)), (next_at, second)];
+            for net in [
+                vec![],
+                vec![(ms + 300, p(0))],
+                vec![(ms + 300, p(0)), (next_at + 250, p(1))],
+                vec![(ms + 300, p(0)), (next_at + 1400, p(1))],
+                vec![(next_at + 100, p(0)), (next_at + 250, p(1))],
+                vec![(next_at + 250, p(1))],
+                vec![(250, p(0)), (next_at + 250, p(1))],
+            ] {
+                shapes.push((app.clone(), net));
+            }
+        }
+        // each one acknowledged in time; a second copy of an earlier PRACK in between
+        let app = vec![(0, AppOp::Rel183), (300, second), (900, AppOp::Rel183)];
+        for net in [
+            vec![(250, p(0)), (550, p(1)), (1150, p(2))],
+            vec![(250, p(0)), (400, p(0)), (550, p(1)), (1000, p(1)), (2300, p(2))],
+            vec![(600, p(0)), (1300, p(1))],
+            vec![(250, p(0)), (2000, p(1)), (2100, p(0)), (2250, p(2))],
+        ] {
+            shapes.push((app.clone(), net));
+        }
+    }
+    let mut out = vec![];
+    for (i, (app, net)) in shapes.into_iter().enumerate() {
+        for reliable in [false, true] {
+            out.push(Case { app: app.clone(), net: net.clone(), net_first: false, rng: (i as u8).wrapping_mul(11).wrapping_add(reliable as u8), reliable, ..Default::default() });
+        }
+    }
+    out
+}
+
+pub fn check_relseq(case: &Case, out: &mut CaseOut) {
+    let last = case.app.iter().map(|a| a.0).chain(case.net.iter().map(|n| n.0)).max().unwrap_or(0);
+    let obs = run(case, last + TIMEOUT + 5000);
+    out.note = Some(describe(&obs));
+    let sched = ref_tsx::rel1xx_schedule();
+    // PRACKs that were really sent: (instant, which reliable provisional its RAck names, index of the network op)
+    let pracks: Vec<(u64, usize, usize)> = case
+        .net
+        .iter()
+        .enumerate()
+        .filter(|(i, _)| !obs.skipped_net.contains(i))
+        .filter_map(|(i, (t, o))| match o {
+            NetOp::PrackOf { nth } => Some((*t, *nth as usize, i)),
+            _ => None,
+        })
+        .collect();
+    if !obs.skipped_net.is_empty() {
+        out.class("a PRACK for a response the peer never saw (not generated)");
+    }
+    let rel_ops: Vec<&AppResult> = obs.app.iter().filter(|a| matches!(a.op, AppOp::Rel183 | AppOp::Rel180 | AppOp::Rel183Abandon(_))).collect();
+    // per reliable provisional: the window in which its call certainly still waits for the PRACK
+    let mut sure: Vec<(u64, u64)> = vec![];
+    for (k, r) in rel_ops.iter().enumerate() {
+        let want_status = if r.op == AppOp::Rel180 { 180 } else { 183 };
+        let Some(rseq) = obs.rseqs.get(k).copied() else {
+            out.fail("c12.rel1xx/not-sent", format!("reliable provisional #{k} ({:?}) never appeared on the wire", r.op));
+            sure.push((0, 0));
+            continue;
+        };
+        let copies: Vec<(&Sent, &WireMsg)> = responses_for(&obs, BRANCH, INVITE_CSEQ, "INVITE")
+            .into_iter()
+            .filter(|(_, m)| m.header("rseq").and_then(|v| v.trim().parse::<u32>().ok()) == Some(rseq))
+            .collect();
+        let sends: Vec<u64> = copies.iter().map(|(s, _)| s.t_ms).collect();
+        if sends.first() != Some(&r.started) || copies.iter().any(|(_, m)| m.status() != Some(want_status)) {
+            out.fail("c12.rel1xx/not-sent", format!("reliable provisional #{k} ({:?}) started at {}: transmissions {sends:?}", r.op, r.started));
+            sure.push((0, 0));
+            continue;
+        }
+        if copies.iter().any(|(_, m)| !m.list_values("require").iter().any(|x| x.eq_ignore_ascii_case("100rel"))) {
+            out.fail("c12.rel1xx/missing-rseq-or-require", format!("reliable provisional #{k} without Require: 100rel"));
+        }
+        let s = r.started;
+        let abandon_at = match r.op {
+            AppOp::Rel183Abandon(ms) => Some(s + ms),
+            _ => None,
+        };
+        // (when the call gives up is not asserted beyond the first 3.5 s)
+        let wait_end = abandon_at.unwrap_or(u64::MAX).min(s + 3500);
+        let mine: Vec<u64> = pracks.iter().filter(|(t, nth, _)| *nth == k && *t > s).map(|(t, _, _)| *t).collect();
+        let first_mine = mine.first().copied();
+        sure.push((s, wait_end.min(first_mine.unwrap_or(u64::MAX))));
+        // the call completes only with the PRACK whose RAck names THIS response
+        if r.outcome == "ok" && !mine.iter().any(|t| *t <= r.ended) {
+            out.fail(
+                "c12.rel1xx/completed-without-matching-prack",
+                format!("reliable provisional #{k} ({:?}, RSeq {rseq}) sent at {s}: the call returned Ok at {} although no PRACK with its RAck had arrived (PRACKs (instant, for #) {:?}); transmissions {sends:?}", r.op, r.ended, pracks.iter().map(|p| (p.0, p.1)).collect::<Vec<_>>()),
+            );
+            continue;
+        }
+        // retransmitted on the RFC 3262 schedule until the matching PRACK (or until the application abandons it)
+        let stop = first_mine.unwrap_or(u64::MAX).min(abandon_at.unwrap_or(u64::MAX));
+        let observed_before: Vec<u64> = sends.iter().copied().filter(|t| *t < stop).collect();
+        let want_prefix: Vec<u64> = sched.iter().map(|t| s + *t).filter(|t| *t < stop).collect();
+        let is_prefix = observed_before.len() <= want_prefix.len() && observed_before == want_prefix[..observed_before.len()];
+        let must_have = want_prefix.iter().filter(|t| **t <= s + 3500).count();
+        if !is_prefix || observed_before.len() < must_have {
+            out.fail(
+                "c12.rel1xx/interval-not-doubling",
+                format!("reliable provisional #{k} ({:?}) sent at {s}, matching PRACK at {first_mine:?}, abandoned at {abandon_at:?}: transmissions {observed_before:?}, RFC 3262 schedule {want_prefix:?}", r.op),
+            );
+        }
+        if let Some(g) = first_mine {
+            if g < wait_end {
+                if sends.iter().any(|t| *t > g) {
+                    out.fail("c12.rel1xx/continues-after-prack", format!("reliable provisional #{k} re-sent after the matching PRACK at {g}: {sends:?}"));
+                }
+                if !(r.outcome == "ok" && r.ended == g) {
+                    out.fail("c12.rel1xx/result", format!("reliable provisional #{k}: matching PRACK at {g}, respond_provisional_reliable gave {r:?}"));
+                }
+                out.class("reliable provisional acknowledged in time");
+            } else {
+                out.class("PRACK after the call stopped waiting (given up / abandoned)");
+            }
+        } else {
+            out.class("reliable provisional never acknowledged");
+        }
+        if k > 0 {
+            out.class(match rel_ops[k - 1].outcome.as_str() {
+                "ok" => "a further reliable provisional after an acknowledged one",
+                "abandoned" => "a further reliable provisional after an abandoned one",
+                _ => "a further reliable provisional after a given-up one",
+            });
+            if pracks.iter().any(|(t, nth, _)| *nth < k && *t > rel_ops[k - 1].ended && *t <= s) {
+                out.class("PRACK of an earlier response arrives between two reliable provisionals");
+            }
+        }
+    }
+    // only the PRACK with the matching RAck is answered 200: one that names another response than the one whose
+    // call certainly waits at that instant is not
+    for (t, nth, i) in &pracks {
+        let codes: Vec<u16> = responses_for(&obs, &format!("z9hG4bKc12prack{}", i + 1), 0, "PRACK").iter().filter_map(|(_, m)| m.status()).filter(|c| *c >= 200).collect();
+        let Some(k) = sure.iter().position(|(a, b)| *t > *a && *t <= *b && a != b) else { continue };
+        if *nth == k {
+            if codes != vec![200] {
+                out.fail("c12.prack/matching-not-answered-200", format!("PRACK at {t} for the reliable provisional #{k} that waits for it answered {codes:?}"));
+            }
+        } else if obs.rseqs.get(*nth) != obs.rseqs.get(k) {
+            if codes.contains(&200) {
+                out.fail("c12.prack/mismatching-answered-200", format!("PRACK at {t} names reliable provisional #{nth} while #{k} waits: answered {codes:?}"));
+            }
+            out.class("PRACK of another reliable provisional while one waits");
+        }
+    }
+    if case.reliable {
+        out.class("reliable transport");
+    }
+    out.nontrivial(case);
 }
 
 pub fn check_race(case: &Case, out: &mut CaseOut) {
@@ -1225,6 +1558,44 @@ pub fn check_race(case: &Case, out: &mut CaseOut) {
         }
     }
 
+    // an accepted INVITE: a CANCEL that arrives once the 2xx is out no longer matches a pending INVITE and "changes
+    // nothing": the session respond_success handed out stays usable, i.e. it does not end before the peer's BYE, and
+    // the first BYE of the dialog reaches the application (which answers it 200 here)
+    let accepted = obs.app.iter().find(|a| a.op == AppOp::Accept && a.outcome == "ok");
+    let mut late_cancel_used = false;
+    if let Some(acc) = accepted {
+        let first_event = obs.session_events.first();
+        let first_bye = case.net.iter().position(|(_, o)| *o == NetOp::Bye);
+        if let Some((t, ev)) = first_event {
+            if ev == "terminated" {
+                out.fail(
+                    "c12.established/session-ended-without-bye",
+                    format!("respond_success returned a session at {} ms; it reported Terminated at {t} ms although no BYE had been handed to the application (network ops {:?})", acc.ended, case.net),
+                );
+            }
+        }
+        if let Some(i) = first_bye {
+            let (t, _) = case.net[i];
+            let branch = format!("z9hG4bKc12bye{}", i + 1);
+            let c: Vec<u16> = responses_for(&obs, &branch, 0, "BYE").iter().filter_map(|(_, m)| m.status()).filter(|c| *c >= 200).collect();
+            // (a BYE that arrives before the ACK waits for the accept to finish; it is judged all the same)
+            if !refused_for(&branch, "BYE").is_empty() {
+                out.class("own 200/481 refused by the transport (excused)");
+            } else {
+                if !obs.session_events.iter().any(|(_, e)| e == "bye") {
+                    out.fail("c12.established/bye-did-not-reach-the-application", format!("session established at {} ms, BYE at {t} ms: session events {:?}, BYE answered {c:?}", acc.ended, obs.session_events));
+                } else if c != vec![200] {
+                    out.fail("c12.established/bye-not-answered-200", format!("session established at {} ms, BYE at {t} ms handed to the application but answered {c:?}", acc.ended));
+                }
+            }
+            out.class("BYE for the established session");
+        }
+        if case.net.iter().any(|(t, o)| matches!(o, NetOp::Cancel { branch_ok: true, cseq_ok: true }) && *t >= acc.started && *t <= acc.ended) {
+            out.class("CANCEL between the 2xx and its ACK");
+            late_cancel_used = first_bye.is_some();
+        }
+    }
+
     // classes / non-triviality
     let close = case.app.iter().any(|(ta, _)| case.net.iter().any(|(tn, _)| ta.abs_diff(*tn) <= 1));
     if close {
@@ -1264,7 +1635,7 @@ pub fn check_race(case: &Case, out: &mut CaseOut) {
             _ => out.class("transport refused another message"),
         }
     }
-    if close || admissible.len() > 1 || fault_hit {
+    if close || admissible.len() > 1 || fault_hit || late_cancel_used {
         out.nontrivial(case);
     }
     let _ = (T1, obs.cancellables_end, obs.dialogs_end, &obs.seen, &obs.session_events);
@@ -1274,21 +1645,25 @@ pub fn property() -> Property {
     Property {
         fuzz: vec![],
         id: "C12",
-        rule: "three sub-checks around one incoming INVITE handled by Dialog::new_server + Acceptor under a paused clock. accept_retransmit (enumerated): accept at 0/30 ms x ACK arrival on the grid {+-1 ms around every T1-doubling-capped-at-T2 instant, 64*T1 +-1, never} x ACK CSeq matching / not. reliable_provisional (enumerated): PRACK arrival +-1 ms around every RFC 3262 instant x RAck matching / wrong rseq / wrong cseq. Both grids also over a transport whose every send stays pending 2 / 20 ms, with the ACK / PRACK arriving inside the first send, just after it, inside the send of a copy, and mid-interval. races (random): 1..3 application ops {180, accept, reject, drop} and 1..4 network ops {CANCEL matching / wrong branch / wrong CSeq, BYE, duplicate INVITE, ACK} at instants from {5,6,7,505,506,1505,4000} ms (same instant in both orders), tokio select seed, 1/4 with 2 ms send latency, 1/4 with one of the first six sends refused by the transport (then without request copies). send_faults (enumerated): CANCEL / BYE / both / non-matching CANCEL + BYE meeting the pending INVITE x application {nothing, 180, 180 + accept, 180 + reject} x refused send k=0..4 x both same-instant orders x {unreliable, reliable, 2 ms latency}, judged by the races oracle. Non-trivial (races, send_faults) = a network op and an application op within 1 ms, or two decisive events at one instant, or a send was refused.",
+        rule: "six sub-checks around one incoming INVITE handled by Dialog::new_server + Acceptor under a paused clock. accept_retransmit (enumerated): accept at 0/30 ms x ACK arrival on the grid {+-1 ms around every T1-doubling-capped-at-T2 instant, 64*T1 +-1, never} x ACK CSeq matching / not. reliable_provisional (enumerated): PRACK arrival +-1 ms around every RFC 3262 instant x RAck matching / wrong rseq / wrong cseq. Both grids also over a transport whose every send stays pending 2 / 20 ms, with the ACK / PRACK arriving inside the first send, just after it, inside the send of a copy, and mid-interval. races (random): 1..3 application ops {180, accept, reject, drop} and 1..4 network ops {CANCEL matching / wrong branch / wrong CSeq, BYE, duplicate INVITE, ACK} at instants from {5,6,7,505,506,1505,4000} ms (same instant in both orders), tokio select seed, 1/4 with 2 ms send latency, 1/4 with one of the first six sends refused by the transport (then without request copies). send_faults (enumerated): CANCEL / BYE / both / non-matching CANCEL + BYE meeting the pending INVITE x application {nothing, 180, 180 + accept, 180 + reject} x refused send k=0..4 x both same-instant orders x {unreliable, reliable, 2 ms latency}, judged by the races oracle. established_then_used (enumerated, races oracle): accept at 0 / 30 ms, ACK 1 / 250 / 700 ms later, CANCEL(s) that can no longer cancel {none, at the accept instant, 1 / 100 / 499 / 501 ms after it, with another branch / CSeq, twice, with a copy of the INVITE, after the ACK}, then the peer's re-INVITE / BYE 1 s later or after 64*T1: one 2xx, CANCEL answered 200 / 481, the session does not end before the BYE, the BYE reaches the application and gets 200 (the same is asserted in races whenever an accept succeeds). reliable_sequence (enumerated): two / three reliable provisionals (183, 180) in a row, the earlier one given up after 31*T1 / abandoned by the application after 700, 3000 ms / acknowledged in time, its PRACK in time, late (between the two calls or while the next one waits), twice or never, the next one's PRACK after 250 / 1400 ms or never; per RSeq: first copy at the call, copies on the RFC 3262 schedule until ITS PRACK, the call returns Ok only at a PRACK naming it, a PRACK naming another response than the one that certainly waits is not answered 200. Non-trivial (races, send_faults, established_then_used) = a network op and an application op within 1 ms, or two decisive events at one instant, or a send was refused, or a CANCEL between 2xx and ACK followed by a BYE.",
         assumptions: vec![
             "same-instant decisive events may be processed in either order: the INVITE's final code must come from one of them",
             "application ops run in list order; an op may start late because the previous call is still waiting (e.g. for an ACK)",
             "total duration of reliable-provisional retransmission is not asserted (observed instants must be a prefix of the RFC 3262 schedule covering at least the first 3.5 s)",
             "which of 200/481 an unmatched CANCEL receives is not asserted; a Drop of the acceptor before any decision removes the exactly-one obligation",
+            "the scripted application drives an accepted session at once and answers a BYE 200 (process_default), a re-INVITE 488; 'changes nothing' after a late CANCEL is judged by that session: no Terminated before a BYE was handed over, the first BYE is handed over and answered 200",
+            "a call of respond_provisional_reliable certainly still waits during the first 3.5 s after its first transmission (and until the application abandons it); only inside that window a matching PRACK must complete it at once and be answered 200, and a PRACK naming another reliable provisional must not be answered 200; what a PRACK gets that arrives for a given-up / abandoned response is not asserted",
             "a final response the transport refused (io::Error from Transport::send) counts as the answer the stack gave to THAT request (its code takes part in winner / exactly-one); the answers owed to the other requests (the 200 of the CANCEL / BYE next to a refused 487 and vice versa) are asserted as without the fault; with a refused send no request copies are generated (a copy arriving after its transaction ended unanswered is a new request)",
             "under send latency d the k-th copy of a 2xx / reliable 1xx is accepted within [nominal, nominal + (k+1)*d]; nothing may be sent after the matching ACK / PRACK arrived, and the waiting call must return within d of it (or of the end of the send it was suspended in)",
         ],
-        explanation: "accept_retransmit, reliable_provisional and send_faults enumerate their grids completely; races are sampled",
+        explanation: "accept_retransmit, reliable_provisional, send_faults, established_then_used and reliable_sequence enumerate their grids completely; races are sampled",
         subs: vec![
             enum_sub("accept_retransmit", accept_cases, check_accept),
             enum_sub("reliable_provisional", rel_cases, check_rel),
             prop_sub("races", race_strategy, 1500, 30000, check_race),
             enum_sub("send_faults", fault_cases, check_race),
+            enum_sub("established_then_used", established_cases, check_race),
+            enum_sub("reliable_sequence", relseq_cases, check_relseq),
         ],
     }
 }
